@@ -184,6 +184,12 @@ class Executor:
             ai = a if a.ty is INT else V(z3.If(a.term, 1, 0), INT)
             bi = b if b.ty is INT else V(z3.If(b.term, 1, 0), INT)
             return ai, bi, INT
+        if getattr(self, "lenient", False):
+            for x, y in ((a, b), (b, a)):
+                if isinstance(x.ty, ObjT) and x.ty.name == "Opaque" and isinstance(y.ty, T._Prim):
+                    self.model.need_box(y.ty)
+                    yb = V(box(y), x.ty)
+                    return (x, yb, x.ty) if x is a else (yb, x, x.ty)
         raise Unsupported(f"cannot unify {a!r} and {b!r}")
 
     def equal(self, a, b):
@@ -276,6 +282,8 @@ class Executor:
     def getattr(self, base, attr, st, node=None):
         v = self.model.getattr(self, base, attr, st, node)
         if v is None:
+            if self.lenient:
+                return V(fresh("havoc", Ref), ObjT("Opaque"))
             raise Unsupported(f"attribute .{attr} of {base!r} at line {getattr(node, 'lineno', '?')}")
         return v
 
@@ -407,6 +415,9 @@ class Executor:
             it = self.coerce(item, c.ty.elem)
             i = fresh("i", z3.IntSort())
             return z3.Exists([i], z3.And(0 <= i, i < seq_len(c.term), seq_at(c.term, i, c.ty.elem) == it.term))
+        if self.lenient:
+            self.havoced = getattr(self, "havoced", []) + [f"`in` on an opaque value ({ast.unparse(node)[:50] if node is not None else c!r})"]
+            return fresh("havoc_in", z3.BoolSort())
         raise Unsupported(f"`in` on {c!r}")
 
     def ev_BinOp(self, e, st):
@@ -522,11 +533,20 @@ class Executor:
             if not self.guards:
                 st.assume(cond)
 
+    lenient = False      # safety-only mode: calls / attributes outside the model are havoc'ed (fresh opaque values) instead of unsupported
+
     def ev_Call(self, e, st):
-        r = self.model.call_node(self, e, st)
-        if r is not None:
-            return r
-        raise Unsupported(f"call {ast.unparse(e)[:80]!r} at line {e.lineno}")
+        try:
+            r = self.model.call_node(self, e, st)
+            if r is not None:
+                return r
+            raise Unsupported(f"call {ast.unparse(e)[:80]!r} at line {e.lineno}")
+        except Unsupported as ex:
+            if not self.lenient:
+                raise
+            self.havoced = getattr(self, "havoced", []) + [f"L{e.lineno}: {ast.unparse(e)[:60]} ({str(ex)[:60]})"]
+            o = V(fresh("havoc", Ref), ObjT("Opaque"))
+            return o
 
     def ev_GeneratorExp(self, e, st):
         return pyv(("genexp", e, dict(st.env)))
@@ -648,6 +668,15 @@ class Executor:
         return self.with_raises(st, s, cont)
 
     def assign(self, tgt, val, st):
+        if isinstance(tgt, ast.Subscript) and self.lenient:
+            try:
+                base = self.ev(tgt.value, st)
+                idx = self.ev(tgt.slice, st)
+                if self.model.setitem(self, base, idx, val, st, tgt):
+                    return
+            except Unsupported:
+                pass
+            return
         if isinstance(tgt, ast.Name):
             loc = getattr(self.contract, "locals", None) if self.contract is not None else None
             if loc and tgt.id in loc:
@@ -658,6 +687,13 @@ class Executor:
                     val = self.coerce(val, ty)
             st.env[tgt.id] = val
         elif isinstance(tgt, (ast.Tuple, ast.List)):
+            if isinstance(val.ty, SeqT):
+                # unpacking a symbolic sequence: arity is a safety obligation (ValueError otherwise)
+                n = len(tgt.elts)
+                self.safety(f"unpacking needs exactly {n} values", st, seq_len(val.term) == n, tgt, "ValueError")
+                for i, t in enumerate(tgt.elts):
+                    self.assign(t, V(seq_at(val.term, z3.IntVal(i), val.ty.elem), val.ty.elem), st)
+                return
             if val.ty is not TUPLE or len(val.py) != len(tgt.elts):
                 raise Unsupported("tuple unpacking of a non-tuple / arity mismatch")
             for t, v in zip(tgt.elts, val.py):
@@ -749,6 +785,13 @@ class Executor:
         return self.model.try_stmt(self, s, st)
 
     def st_With(self, s, st):
+        if self.lenient:
+            # safety-only: the context manager and its __enter__ value are opaque; its body is executed normally
+            for item in s.items:
+                self.havoced = getattr(self, "havoced", []) + [f"L{s.lineno}: with {ast.unparse(item.context_expr)[:50]}"]
+                if isinstance(item.optional_vars, ast.Name):
+                    st.env[item.optional_vars.id] = V(fresh("havoc", Ref), ObjT("Opaque"))
+            return self.run(s.body, st)
         return self.model.with_stmt(self, s, st)
 
     st_AsyncWith = st_With
